@@ -884,6 +884,79 @@ func (e *Env) evalCall(x *Expr) cval {
 			e.errorf("callres: no call of %s recorded", x.Args[0].Str)
 			return cval{"nilval", CT{Sort: "Val"}}
 		}
+	case "calledAny":
+		// calledAny("key"): the path executed some call of key (any call site)
+		if len(x.Args) == 1 && x.Args[0].Op == "lit-str" {
+			var rs []Term
+			for n := 1; ; n++ {
+				r, ok := vc.callReach[fmt.Sprintf("%s#%d", x.Args[0].Str, n)]
+				if !ok {
+					break
+				}
+				rs = append(rs, r)
+			}
+			return cval{Or(rs...), B}
+		}
+	case "lastres", "lastarg":
+		// lastres("key", i) / lastarg("key", i): i-th result / argument of the last call of key the
+		// path executed (over all call sites, in program order)
+		if len(x.Args) == 2 && x.Args[0].Op == "lit-str" && x.Args[1].Op == "lit-int" {
+			var k int
+			fmt.Sscan(x.Args[1].Int, &k)
+			var out cval
+			found := false
+			for n := 1; ; n++ {
+				key := fmt.Sprintf("%s#%d", x.Args[0].Str, n)
+				r, ok := vc.callReach[key]
+				if !ok {
+					break
+				}
+				var v cval
+				if x.Name == "lastres" {
+					syms := vc.callSyms[key]
+					if k >= len(syms) {
+						break
+					}
+					v = cval{syms[k], vc.callSymCT(key, k)}
+				} else {
+					as := vc.callArgs[key]
+					if k >= len(as) {
+						break
+					}
+					v = as[k]
+				}
+				if !found {
+					out, found = v, true
+				} else {
+					out = cval{Ite(r, v.t, out.t), v.ct}
+				}
+			}
+			if found {
+				return out
+			}
+			e.errorf("%s: no call of %s recorded", x.Name, x.Args[0].Str)
+			return cval{"nilval", CT{Sort: "Val"}}
+		}
+	case "globalType":
+		// globalType("pkg.Var", "T"): the static type of a package-level variable (decided at generation time)
+		if len(x.Args) == 2 && x.Args[0].Op == "lit-str" && x.Args[1].Op == "lit-str" {
+			name := x.Args[0].Str
+			pkg := e.pkg
+			if i := strings.Index(name, "."); i >= 0 {
+				pkg = vc.P.pkgByShort(name[:i])
+				name = name[i+1:]
+			}
+			if pkg != nil {
+				if o := pkg.Scope().Lookup(name); o != nil {
+					if types.TypeString(o.Type(), nil) == x.Args[1].Str {
+						return cval{"true", B}
+					}
+					return cval{"false", B}
+				}
+			}
+			e.errorf("globalType: unknown variable %s", x.Args[0].Str)
+			return cval{"false", B}
+		}
 	case "detachedCtx":
 		// detachedCtx(ctx): established only by context.WithoutCancel / context.Background (ext.go)
 		vc.sc.DeclFun("detachedCtx", []string{"Val"}, "Bool")
@@ -910,6 +983,15 @@ func (e *Env) evalCall(x *Expr) cval {
 			a := as[k]
 			if len(x.Args) == 3 && x.Args[2].Op == "lit-str" {
 				t := e.lookupType(x.Args[2].Str)
+				if x.Args[2].Str == "dyn" {
+					// the static type the call site boxes into the interface parameter
+					if dts := vc.callArgDyn[x.Args[0].Str]; k < len(dts) && dts[k].t != "" {
+						return dts[k]
+					} else {
+						e.errorf("callarg: argument %d of %s is not a boxed value of a static type", k, x.Args[0].Str)
+						return a
+					}
+				}
 				if t == nil {
 					e.errorf("callarg: unknown type %s", x.Args[2].Str)
 					return a
